@@ -178,6 +178,74 @@ def check(idx: Index, rep: Report, tier: str) -> str:
         else:
             r4.ok(f.fq, f"{f.loc} condition used through truthiness")
 
+    # ---- the normalisers themselves are total modular reductions
+    r6 = rep.rule("C15.R6", "the width normalisers are total: every return of to_unsigned / to_signed / _truncate / _sign_extend is a reduction modulo 2**width of its (arbitrary) integer argument, so overflowed intermediate results wrap", floor=4)
+    CMPU = "xdsl/utils/comparisons.py"
+    from .. import modarith as ma
+
+    cm = idx.module(CMPU)
+    cm_funcs = {n: f.node for n, f in cm.functions.items() if f.cls is None}
+    ia_funcs = {n: f.node for n, f in idx.module(IA).functions.items() if f.cls is None}
+    for nm, want in (("unsigned_upper_bound", ma.M_), ("signed_upper_bound", ma.H_), ("signed_lower_bound", -ma.H_)):
+        bf = idx.func(CMPU, nm)
+        got = ma.const_of(bf.node, cm_funcs)
+        if got == want:
+            r6.ok(bf.fq, f"{bf.loc} {nm}(w) = {got} with M = 2**w")
+        else:
+            r6.fail(bf.fq, Finding("C15.R6", bf.fq, f"bound:{nm}", f"{nm}(w) evaluates to {got} (M = 2**w); it must be {want}", bf.loc))
+
+    def modular(fi, funcs, lo, hi, what: str) -> None:
+        for val, line in ma.analyse(fi.node, funcs):
+            inst = f"{fi.fq}:{line - fi.node.lineno}"
+            loc = f"{fi.module.relpath}:{line}"
+            if not isinstance(val, ma.Var):
+                r6.fail(inst, Finding("C15.R6", fi.fq, "constant-result", f"a path returns the constant {val}", loc))
+            elif val.cong is None or not val.cong.is_multiple_of_m():
+                r6.fail(inst, Finding("C15.R6", fi.fq, "not-congruent", f"the value returned at line {line} is {val.show()}: it is not congruent to the argument modulo 2**width", loc))
+            elif not ma.within(val, lo, hi):
+                r6.fail(inst, Finding("C15.R6", fi.fq, "partial-normaliser", f"the value returned at line {line} is {val.show()}, not inside the {what} range [{lo}, {hi}] for every integer argument: the function only corrects arguments within one modulus of the range, but the interpreter applies it to raw Python results of addi/subi/muli/shli, which overflow by arbitrary amounts (e.g. 127 * 127 : i8, -128 + -1 : i8)", loc))
+            else:
+                r6.ok(inst, f"{loc} {fi.name}: {val.show()} ⊆ {what} range")
+
+    modular(idx.func(CMPU, "to_unsigned"), cm_funcs, ma.ZERO, ma.M_ - ma.ONE, "unsigned")
+    modular(idx.func(CMPU, "to_signed"), cm_funcs, -ma.H_, ma.H_ - ma.ONE, "signed")
+    modular(idx.func(IA, "_truncate"), ia_funcs, -ma.H_, ma.H_ - ma.ONE, "signed")
+    modular(idx.func(IA, "_sign_extend"), ia_funcs, -ma.H_, ma.H_ - ma.ONE, "signed")
+
+    # ---- loop interpreters iterate exactly the induction values of range(lb, ub, step)
+    r7 = rep.rule("C15.R7", "every loop interpreter runs the body once per element of range(lb, ub, step) (ceil((ub-lb)/step) iterations), with the bounds taken in operand order", floor=3)
+    for mod, q in (("xdsl/interpreters/scf.py", "ScfFunctions.run_for"), ("xdsl/interpreters/affine.py", "AffineFunctions.run_for"), ("xdsl/interpreters/riscv_scf.py", "RiscvScfFunctions.run_for")):
+        lf = idx.try_func(mod, q)
+        if lf is None:
+            raise AnalysisError(f"{mod}: {q} not found")
+        cfg = CFG(lf.node)
+        loops = [n for n in walk_local(lf.node) if isinstance(n, (ast.For, ast.While)) and any(call_attr(c) in ("run_ssacfg_region", "run_op", "_run_block", "run_region") for c in calls_in(n))]
+        if len(loops) != 1:
+            raise AnalysisError(f"{lf.fq}: expected one loop running the body, found {len(loops)}")
+        lp = loops[0]
+        it = lp.iter if isinstance(lp, ast.For) else None
+        if isinstance(it, ast.Call) and unparse(it.func) == "range" and len(it.args) == 3:
+            a3 = [resolved_text(cfg, a, cfg.node_of(lp)) for a in it.args]
+            # the induction variable must be what is passed to the body
+            iv = unparse(lp.target)
+            passes_iv = any(iv in {n_.id for n_ in ast.walk(c) if isinstance(n_, ast.Name)} for c in calls_in(lp)) or any(isinstance(s_, ast.Assign) and iv in unparse(s_.value) for s_ in walk_local(lp) if isinstance(s_, ast.Assign))
+            unpack = [s_ for s_ in lf.node.body if isinstance(s_, ast.Assign) and isinstance(s_.targets[0], ast.Tuple) and unparse(s_.value) == "args"]
+            order_ok = True
+            if unpack:
+                names3 = [unparse(e) for e in unpack[0].targets[0].elts[:3]]
+                order_ok = [unparse(a) for a in it.args] == names3
+            if passes_iv and order_ok:
+                r7.ok(lf.fq, f"{lf.loc} for {iv} in range({', '.join(a3)})")
+            else:
+                r7.fail(lf.fq, Finding("C15.R7", lf.fq, "range-operands", f"`{unparse(it)}` does not take (lb, ub, step) in operand order, or the induction variable `{iv}` is not passed to the body", lf.loc))
+        else:
+            floor_divs = [b for b in walk_local(lf.node) if isinstance(b, ast.BinOp) and isinstance(b.op, ast.FloorDiv)]
+            ceil = any(re.search(r"-\(-|\+ \w+ - 1\)", unparse(b)) for b in floor_divs) or "ceil" in unparse(lf.node)
+            if floor_divs and not ceil:
+                r7.fail(lf.fq, Finding("C15.R7", lf.fq, "floor-trip-count", f"the trip count is computed as `{unparse(floor_divs[0])}` (floor division): a loop whose range is not a multiple of the step loses its last iteration (0 to 5 step 2 runs twice instead of three times)", f"{mod}:{floor_divs[0].lineno}"))
+            else:
+                raise AnalysisError(f"{lf.fq}: loop shape `{unparse(lp).splitlines()[0]}` not recognised")
+
     return (
         "Derivation / table rules over xdsl/interpreters/arith.py (+ cf, scf): returned integers pass a width normaliser "
         "with the result type's bit-width, signedness-sensitive operations normalise both operands, cmpi/cmpf cases match "
